@@ -53,7 +53,24 @@ def reset():
 STREAMS = {}
 
 
-def replay(hist, shared=False, mediated=False, keep_streams=False, ctx_deact=False):
+def on_worker(f):
+    """run f on a fresh thread and wait for it (the hooks are process-wide: which thread activated does not matter)"""
+    import threading
+    box = []
+
+    def body():
+        try:
+            f()
+        except BaseException as e:  # noqa: BLE001
+            box.append(e)
+    t = threading.Thread(target=body)
+    t.start()
+    t.join()
+    if box:
+        raise box[0]
+
+
+def replay(hist, shared=False, mediated=False, keep_streams=False, ctx_deact=False, threads=False):
     """mediated=True: while an activation is in force, an unpickler with additions is constructed through the pickle
     module (`pickle.Unpickler(f, also_allow=A)`, the class the activation installed) rather than by naming the class.
     shared=True: the caller keeps ONE additions list per use (activations / constructions) and edits it in place; no
@@ -62,24 +79,28 @@ def replay(hist, shared=False, mediated=False, keep_streams=False, ctx_deact=Fal
     if ml.ML_ALLOWLIST != BASE0:
         raise SystemExit("reset of ML_ALLOWLIST failed")
     steps, active = [], False
-    for op in hist:
+    for opno, op in enumerate(hist):
         inst = None
+        # in some histories every other activation / deactivation is made by a worker thread; all probes stay on this one
+        call = on_worker if threads and opno % 2 == 1 else (lambda f: f())
         if op == "deact":
             if ctx_deact:               # the environment is deactivated from inside an open safety context
-                with fickling.check_safety():
-                    hook.remove_hook()
+                def _d():
+                    with fickling.check_safety():
+                        hook.remove_hook()
+                call(_d)
             else:
-                hook.remove_hook()
+                call(hook.remove_hook)
             active = False
         elif op.startswith("act"):
             a = ADD[op[-1]]
             if a is None:
-                fickling.activate_safe_ml_environment()
+                call(fickling.activate_safe_ml_environment)
             elif shared:
                 ACT_LIST[:] = a
-                fickling.activate_safe_ml_environment(also_allow=ACT_LIST)
+                call(lambda: fickling.activate_safe_ml_environment(also_allow=ACT_LIST))
             else:
-                fickling.activate_safe_ml_environment(also_allow=list(a))
+                call(lambda a=a: fickling.activate_safe_ml_environment(also_allow=list(a)))
             active = True
         else:
             a = ADD[op[-1]]
@@ -122,7 +143,7 @@ def main():
         m, n = g.rsplit(".", 1)
         if (m in BASE0 and n in BASE0[m]) != want:
             raise SystemExit(f"vocabulary assumption broken: {g} in built-in allowlist = {not want}")
-    out = [{"id": i, "hist": h, "steps": replay(h, shared=(i % 2 == 1), mediated=(i % 4 >= 2), keep_streams=(i % 3 == 0), ctx_deact=(i % 5 == 0))} for i, h in enumerate(hists)]
+    out = [{"id": i, "hist": h, "steps": replay(h, shared=(i % 2 == 1), mediated=(i % 4 >= 2), keep_streams=(i % 3 == 0), ctx_deact=(i % 5 == 0), threads=(i % 7 in (3, 4)))} for i, h in enumerate(hists)]
     json.dump(out, open(sys.argv[2], "w"))
 
 
